@@ -2,6 +2,7 @@ package pdfcpu
 
 import (
 	"github.com/pdfcpu/pdfcpu/internal/zzverif/vp"
+	"github.com/pdfcpu/pdfcpu/pkg/pdfcpu/model"
 	"github.com/pdfcpu/pdfcpu/pkg/pdfcpu/types"
 )
 
@@ -73,4 +74,123 @@ func VerifMergeRenumbering() {
 	} else {
 		vp.Assert(len(t) == 0, "object number outside the source kept in a renumbered set")
 	}
+}
+
+// ---- C33, merge half: appending a source page tree to a destination page tree --------------------
+
+func verifPageDoc(first, pages int, rootAttrs [4]bool) (*model.Context, []int) {
+	// objects: first = catalog, first+1 = page tree root, first+2.. = pages
+	xt := &model.XRefTable{Table: map[int]*model.XRefTableEntry{}}
+	ctx := &model.Context{Configuration: &model.Configuration{}, XRefTable: xt}
+	zero, g0 := int64(0), types.FreeHeadGeneration
+	xt.Table[0] = &model.XRefTableEntry{Free: true, Offset: &zero, Generation: &g0}
+	put := func(nr int, o types.Object) {
+		gen := 0
+		xt.Table[nr] = &model.XRefTableEntry{Object: o, Generation: &gen}
+	}
+	rootRef := *types.NewIndirectRef(first+1, 0)
+	var kids types.Array
+	var leaves []int
+	for i := 0; i < pages; i++ {
+		nr := first + 2 + i
+		put(nr, types.Dict{"Type": types.Name("Page"), "Parent": rootRef})
+		kids = append(kids, *types.NewIndirectRef(nr, 0))
+		leaves = append(leaves, nr)
+	}
+	root := types.Dict{"Type": types.Name("Pages"), "Kids": kids, "Count": types.Integer(pages)}
+	for i, k := range []string{"Resources", "MediaBox", "CropBox", "Rotate"} {
+		if rootAttrs[i] {
+			root[k] = types.Integer(0)
+		}
+	}
+	put(first+1, root)
+	put(first, types.Dict{"Type": types.Name("Catalog"), "Pages": rootRef})
+	cat := *types.NewIndirectRef(first, 0)
+	xt.Root = &cat
+	size := first + 2 + pages
+	xt.Size = &size
+	xt.PageCount = pages
+	return ctx, leaves
+}
+
+// verifLeaves walks the page tree below ref and returns the page objects in order; it also checks every
+// node's /Count and every kid's /Parent.
+func verifLeaves(ctx *model.Context, ref types.IndirectRef, parent int, depth int, ok *bool) []int {
+	if depth > 6 {
+		*ok = false
+		return nil
+	}
+	e, found := ctx.Table[ref.ObjectNumber.Value()]
+	if !found || e.Object == nil {
+		*ok = false
+		return nil
+	}
+	d, isDict := e.Object.(types.Dict)
+	if !isDict {
+		*ok = false
+		return nil
+	}
+	if parent != 0 {
+		p := d.IndirectRefEntry("Parent")
+		if p == nil || p.ObjectNumber.Value() != parent {
+			*ok = false
+		}
+	}
+	if t := d.NameEntry("Type"); t != nil && *t == "Page" {
+		return []int{ref.ObjectNumber.Value()}
+	}
+	var out []int
+	kids, _ := d["Kids"].(types.Array)
+	for _, k := range kids {
+		kr, isRef := k.(types.IndirectRef)
+		if !isRef {
+			*ok = false
+			continue
+		}
+		out = append(out, verifLeaves(ctx, kr, ref.ObjectNumber.Value(), depth+1, ok)...)
+	}
+	if c := d.IntEntry("Count"); c == nil || *c != len(out) {
+		*ok = false
+	}
+	return out
+}
+
+// VerifMergeAppendPageTree (C33): a source document of 1..P pages is appended to a destination of 1..P
+// pages whose page tree root carries any subset of the inheritable attributes (which forces a new
+// neutral root). Afterwards the catalog's /Pages tree must list the destination's pages followed by the
+// source's pages, with consistent /Count and /Parent entries, and PageCount must be their sum; a second
+// source appended after the first must land behind both.
+func VerifMergeAppendPageTree() {
+	var attrs [4]bool
+	for i := range attrs {
+		attrs[i] = vp.Bool()
+	}
+	m := vp.IntRange(1, vp.Bound("P"))
+	n := vp.IntRange(1, vp.Bound("P"))
+	dest, destLeaves := verifPageDoc(1, m, attrs)
+	want := append([]int{}, destLeaves...)
+	rounds := vp.IntRange(1, 2)
+	for r := 0; r < rounds; r++ {
+		var srcAttrs [4]bool
+		srcAttrs[1] = vp.Bool()
+		src, srcLeaves := verifPageDoc(*dest.Size, n, srcAttrs)
+		if err := appendSourceObjectsToDest(src, dest); err != nil {
+			return
+		}
+		if err := appendSourcePageTreeToDestPageTree(src, dest, false); err != nil {
+			vp.Assert(false, "appending a well-formed source page tree failed: "+err.Error())
+			return
+		}
+		want = append(want, srcLeaves...)
+	}
+	pages, err := dest.Pages()
+	vp.Assert(err == nil && pages != nil, "catalog lost its /Pages entry")
+	ok := true
+	got := verifLeaves(dest, *pages, 0, 0, &ok)
+	vp.Assert(ok, "merged page tree has inconsistent /Count, /Parent or /Kids entries")
+	vp.Assert(len(got) == len(want), "merged page tree does not list all pages of destination and sources")
+	for i := 0; i < len(got) && i < len(want); i++ {
+		vp.Assert(got[i] == want[i], "merged page tree lists the pages in the wrong order")
+	}
+	vp.Assert(dest.PageCount == len(want), "PageCount is not the number of pages of destination and sources")
 }
